@@ -586,11 +586,19 @@ def gen_protocol_set(rng):
             for en in enames:
                 bitfield = rng.random() < 0.5
                 e = ['    <enum name="%s"%s>' % (en, ' bitfield="%s"' % ('true' if bitfield else 'false') if bitfield or rng.random() < 0.3 else '')]
-                for nm in rng.sample(ENTRY_NAMES, rng.randint(1, 6)):
+                big = rng.random() < 0.15     # key-code style enums: dozens of entries, aliases (several names for one value)
+                names = rng.sample(ENTRY_NAMES, rng.randint(1, 6)) if not big else ['k%d' % i for i in range(rng.randint(17, 40))]
+                for nm in names:
                     if bitfield:
                         v = rng.choice([0, 1, 2, 4, 8, 3, 6, 16, 0x80000000, 12])
+                    elif big:
+                        v = rng.choice([0x110, 0x111, 7, 7, 9, rng.randint(0, 30), rng.randint(0, 30)])
                     else:
                         v = rng.choice([0, 1, 2, 3, 3, 7, 9, 100, 0x110, 4294967295])
+                    if rng.random() < 0.12:
+                        nm = str(v) if rng.random() < 0.6 else rng.choice(['90', '180', '270', '8', '10', '16'])     # numeric names (wl_output.transform has 90, 180, 270)
+                        if any(('name="%s"' % nm) in line for line in e):
+                            continue
                     r = rng.random()
                     if r < 0.25:
                         text = hex(v)
